@@ -62,6 +62,8 @@ type LogSpec struct {
 	Data    []byte
 	TxHash  common.Hash
 	Removed bool
+	// SameTx: emitted by the same transaction as the previous log of the block
+	SameTx bool
 }
 
 // NewChain creates a chain with a genesis block 0
@@ -91,13 +93,18 @@ func (c *Chain) build(parent *SimBlock, num uint64, logs []LogSpec, ts uint64) *
 	}
 	h.Extra = extra
 	b := &SimBlock{Header: h, hash: h.Hash()}
+	txIdx := -1
+	var txHash common.Hash
 	for i, l := range logs {
-		tx := l.TxHash
-		if tx == (common.Hash{}) {
-			tx = crypto.Keccak256Hash(b.hash[:], []byte{byte(i)})
+		if !(l.SameTx && i > 0) {
+			txIdx++
+			txHash = l.TxHash
+			if txHash == (common.Hash{}) {
+				txHash = crypto.Keccak256Hash(b.hash[:], []byte{byte(i)})
+			}
 		}
 		b.Logs = append(b.Logs, types.Log{Address: l.Address, Topics: l.Topics, Data: l.Data, BlockNumber: num,
-			TxHash: tx, TxIndex: uint(i), BlockHash: b.hash, Index: uint(i), Removed: l.Removed})
+			TxHash: txHash, TxIndex: uint(txIdx), BlockHash: b.hash, Index: uint(i), Removed: l.Removed})
 	}
 	return b
 }
